@@ -425,18 +425,20 @@ theorem c08_no_safe_state (sem : Sem σ δ) (s : RState σ δ) (e : Err) (dec : 
 
 /-! ## The resource thread -/
 
-/-- **The resource thread (`run_resource_loop`) and the latch.**  Started on a runtime that is not
-faulted, one iteration either lets the thread go on — and then the runtime is again not faulted
-(the cycle succeeded, or the error / watchdog overrun was answered by a warm restart because the
-policy / action is `restart`) — or ends the thread in `Faulted` with `last_error = e`, and then
-the runtime is faulted with `e` latched.  So the thread never asks a faulted runtime for a cycle,
-and never runs a cycle after a fault without a restart in between. -/
-theorem c08_runner_iter (sem : Sem σ δ) (s : RState σ δ) (t : Int) (wdEnabled over : Bool)
+/-- **The resource thread (`run_resource_loop`) and the latch — partial: no post-cycle simulation
+error.**  Started on a runtime that is not faulted, one iteration either lets the thread go on —
+and then the runtime is again not faulted (the cycle succeeded, or the error / watchdog overrun
+was answered by a warm restart because the policy / action is `restart`) — or ends the thread in
+`Faulted` with `last_error = e`, and then the runtime is faulted with `e` latched.  So the thread
+never asks a faulted runtime for a cycle, and never runs a cycle after a fault without a restart
+in between.  Guard `post = none`: see `c08_counterexample_post_cycle`. -/
+theorem c08_runner_iter_partial (sem : Sem σ δ) (s : RState σ δ) (t : Int) (wdEnabled over : Bool)
     (hs : s.faulted = false) :
-    ((runnerIter sem s t wdEnabled over).err = none → (runnerIter sem s t wdEnabled over).st.faulted = false) ∧
-    (∀ e, (runnerIter sem s t wdEnabled over).err = some e →
-      (runnerIter sem s t wdEnabled over).st.faulted = true ∧
-      (runnerIter sem s t wdEnabled over).st.lastFault = some e) := by
+    ((runnerIter sem s t wdEnabled over none).err = none →
+      (runnerIter sem s t wdEnabled over none).st.faulted = false) ∧
+    (∀ e, (runnerIter sem s t wdEnabled over none).err = some e →
+      (runnerIter sem s t wdEnabled over none).st.faulted = true ∧
+      (runnerIter sem s t wdEnabled over none).st.lastFault = some e) := by
   have hs0 : ({ s with now := t } : RState σ δ).faulted = false := hs
   have hout := c08_cycle_outcome sem { s with now := t } hs0
   simp only [runnerIter]
@@ -467,20 +469,22 @@ theorem c08_runner_iter (sem : Sem σ δ) (s : RState σ δ) (t : Int) (wdEnable
     · exact ⟨fun _ => h3, fun e' h => by simp at h⟩
 
 /-- The same over any number of iterations (induction): while the thread runs, the runtime is not
-faulted at the start of any iteration; when the thread ends in `Faulted`, the fault is latched. -/
-theorem c08_runner_loop (sem : Sem σ δ) (interval : Int) (wdEnabled over : Bool) (n : Nat)
+faulted at the start of any iteration; when the thread ends in `Faulted`, the fault is latched.
+Guard: no iteration has a post-cycle simulation error. -/
+theorem c08_runner_loop_partial (sem : Sem σ δ) (interval : Int) (wdEnabled over : Bool)
+    (posts : Nat → Option Err) (hposts : ∀ k, posts k = none) (n : Nat)
     (s : RState σ δ) (t : Int) (hs : s.faulted = false) :
-    ((runnerLoop sem interval wdEnabled over n s t).err = none →
-      (runnerLoop sem interval wdEnabled over n s t).st.faulted = false) ∧
-    (∀ e, (runnerLoop sem interval wdEnabled over n s t).err = some e →
-      (runnerLoop sem interval wdEnabled over n s t).st.faulted = true ∧
-      (runnerLoop sem interval wdEnabled over n s t).st.lastFault = some e) := by
+    ((runnerLoop sem interval wdEnabled over posts n s t).err = none →
+      (runnerLoop sem interval wdEnabled over posts n s t).st.faulted = false) ∧
+    (∀ e, (runnerLoop sem interval wdEnabled over posts n s t).err = some e →
+      (runnerLoop sem interval wdEnabled over posts n s t).st.faulted = true ∧
+      (runnerLoop sem interval wdEnabled over posts n s t).st.lastFault = some e) := by
   induction n generalizing s t with
   | zero => exact ⟨fun _ => hs, fun e h => by simp [runnerLoop] at h⟩
   | succ n ih =>
-    have hi := c08_runner_iter sem s t wdEnabled over hs
-    simp only [runnerLoop]
-    cases hr : (runnerIter sem s t wdEnabled over).err with
+    have hi := c08_runner_iter_partial sem s t wdEnabled over hs
+    simp only [runnerLoop, hposts n]
+    cases hr : (runnerIter sem s t wdEnabled over none).err with
     | some e =>
       simp only []
       refine ⟨fun h => by simp [hr] at h, fun e' h => ?_⟩
@@ -489,16 +493,16 @@ theorem c08_runner_loop (sem : Sem σ δ) (interval : Int) (wdEnabled over : Boo
       simp only []
       exact ih _ _ (hi.1 hr)
 
-/-- **Safe image when the thread ends.**  If the iteration ends the thread because the cycle
-failed and the fault policy is `safe_halt`, or because the watchdog tripped and its action is
-`halt` or `safe_halt`, the safe image was forced and delivered to every driver before the thread
-reported `Faulted`. -/
-theorem c08_runner_safe (sem : Sem σ δ) (s : RState σ δ) (t : Int) (wdEnabled over : Bool)
-    (hs : s.faulted = false) (e : Err) (he : (runnerIter sem s t wdEnabled over).err = some e) :
+/-- **Safe image when the thread ends — partial: no post-cycle simulation error.**  If the
+iteration ends the thread because the cycle failed and the fault policy is `safe_halt`, or
+because the watchdog tripped and its action is `halt` or `safe_halt`, the safe image was forced
+and delivered to every driver before the thread reported `Faulted`. -/
+theorem c08_runner_safe_partial (sem : Sem σ δ) (s : RState σ δ) (t : Int) (wdEnabled over : Bool)
+    (hs : s.faulted = false) (e : Err) (he : (runnerIter sem s t wdEnabled over none).err = some e) :
     (∀ e', (executeCycle sem { s with now := t }).err = some e' → s.policy = .safeHalt →
-      SafeDelivered sem.nDrivers s.safe (runnerIter sem s t wdEnabled over) e) ∧
+      SafeDelivered sem.nDrivers s.safe (runnerIter sem s t wdEnabled over none) e) ∧
     ((executeCycle sem { s with now := t }).err = none → s.wdAction ≠ .restart →
-      SafeDelivered sem.nDrivers s.safe (runnerIter sem s t wdEnabled over) .watchdogTimeout) := by
+      SafeDelivered sem.nDrivers s.safe (runnerIter sem s t wdEnabled over none) .watchdogTimeout) := by
   have hs0 : ({ s with now := t } : RState σ δ).faulted = false := hs
   constructor
   · intro e' hc hp
@@ -597,7 +601,7 @@ example : cyclePhases toy = [phaseRead toy, phaseDebug, phaseForce, phaseLatch t
 /-- The resource thread on the toy application: it runs two cycles, ends in `Faulted` with
 `DivisionByZero` in the third although five were allowed, and the safe value is in the image. -/
 example :
-    let r := runnerLoop toy 10 false false 5 toyState 0
+    let r := runnerLoop toy 10 false false (fun _ => none) 5 toyState 0
     r.err = some .divisionByZero ∧ r.st.faulted = true ∧ r.st.cycles = 2 ∧
     r.st.io.read toyAddr = .ok (.byte 90) := by
   intro r
@@ -606,9 +610,25 @@ example :
 /-- … and with a watchdog that trips on every cycle (action `safe_halt`) the first iteration ends
 the thread with `WatchdogTimeout` after a successful cycle. -/
 example :
-    (runnerIter toy toyState 0 true true).err = some .watchdogTimeout ∧
+    (runnerIter toy toyState 0 true true none).err = some .watchdogTimeout ∧
     (executeCycle toy { toyState with now := 0 }).err = none ∧ toyState.wdAction ≠ .restart ∧
     toyState.faulted = false :=
   ⟨rfl, rfl, by decide, rfl⟩
+
+/-- **Counterexample (finding C08-runner-post-cycle): the guard `post = none` of the
+`c08_runner_*_partial` theorems cannot be dropped.**  On the toy application under fault policy
+`safe_halt`, an error of `apply_post_cycle` after a successful first cycle ends the thread in
+`Faulted` with that error, but the runtime is NOT faulted, nothing is latched, the fitting
+safe-state entry `%QB1 = 90` is NOT in the image, and no driver was handed any image after the
+cycle's own publish (the events are exactly those of a successful cycle: no delivery, no `Fault`).
+Replayed on the real `ResourceRunner` by `vharness c08 --probe postcycle`. -/
+theorem c08_counterexample_post_cycle :
+    let r := runnerIter toy toyState 0 false false (some .invalidIoAddress)
+    toyState.faulted = false ∧ toyState.policy = .safeHalt ∧ fits toyAddr (.byte 90) = true ∧
+    r.err = some .invalidIoAddress ∧ r.st.faulted = false ∧ r.st.lastFault = none ∧
+    r.st.io.read toyAddr = .ok (.byte 0) ∧
+    r.evs = [.cycleStart, .drvRead 0, .drvRead 1, .prog 0 1, .drvWrite 0 [], .drvWrite 1 [], .cycleEnd] := by
+  intro r
+  exact ⟨rfl, rfl, rfl, rfl, rfl, rfl, rfl, rfl⟩
 
 end TrustVerif.C08
